@@ -43,7 +43,7 @@ Fixpoint sels_strictM (fuel : nat) (C : cfg) (S : schema) (frs : list fragdef) (
             field_strict C S nested tn f &&
             match fn_sub f, schema_field_type S tn (fn_name f) with
             | Some sub, Ok t => (* interface positions: only in the mixin-free theorem (okb = false here) *)
-                                strict_sub (fun _ _ => false) (sels_strictM g C S frs true) S (base_name t) sub
+                                strict_sub (fun _ _ => false) (sels_strictM g C S frs true) (fun _ _ => false) S (base_name t) sub
             | _, _ => true
             end) fns &&
           forallb (fun m => match lookup_frag frs m with
@@ -64,7 +64,7 @@ Lemma sels_strictM_inv gs C S frs nested tn sels g fns ms :
   sels_strictM gs C S frs nested tn sels = true -> flattenM g S frs tn tn false sels = Some (fns, ms) ->
   exists gs', gs = Datatypes.S gs' /\
     forallb (fun f => field_strict C S nested tn f &&
-                      sub_strict S (fun _ _ _ _ => false) (sels_strictM gs' C S frs true) tn f) fns = true /\
+                      sub_strict S (fun _ _ _ _ => false) (sels_strictM gs' C S frs true) (fun _ _ => false) tn f) fns = true /\
     forallb (mixin_strict gs' C S frs tn) ms = true.
 Proof.
   destruct gs as [|gs']; [discriminate|]. cbn [sels_strictM]. intros H Hfl.
@@ -94,7 +94,7 @@ Section MixS.
   Definition class_goodS (g : nat) (cn : string) (tn : string) (N l : list cnode) : Prop :=
     exists pfs, (forall j, j >= g + 2 -> mro_fields j cls cn = Some pfs) /\
       (forall pf, In pf pfs -> exists f, In (node_of_fnode false f) N /\
-          forall n', n' >= F + g + 1 -> field_facts_rev C S frs (Wn n') tn f pf) /\
+          forall n', n' >= F + g + 1 -> field_facts_rev C S frs (Wn n') [tn] tn f pf) /\
       (forall x, In x l -> In (n_key x) (map field_key_of pfs)).
 
   Definition ambS (N : list cnode) : Prop :=
@@ -121,7 +121,7 @@ Section MixS.
     assert (Hndk : NoDup (map n_key l)) by (eapply keys_ok_nodup; eauto).
     (* a field of the class determines its node by the key *)
     assert (Hnode : forall pf, In pf pfs -> forall x, In x l -> field_key_of pf = n_key x ->
-              exists f, x = node_of_fnode false f /\ field_facts_rev C S frs (Wn n') tn f pf).
+              exists f, x = node_of_fnode false f /\ field_facts_rev C S frs (Wn n') [tn] tn f pf).
     { intros pf Hpf x Hx Ek. destruct (HA pf Hpf) as [f [Hf Hfacts]]. exists f. split; [| apply Hfacts, Hn].
       destruct (Hfacts n' Hn) as [E1 _].
       eapply (NoDup_map_inj_in n_key); eauto. rewrite <- Ek, E1. reflexivity. }
@@ -154,7 +154,7 @@ Section MixS.
         destruct (Hnode pf (last_wins_In _ _ Hin) x Hx He) as [f [Ex [_ [_ [_ [_ Hval]]]]]].
         apply Hval in Hw. unfold value_lconf in Hw. subst x. cbn [n_name node_of_fnode].
         destruct (String.eqb (fn_name f) "__typename").
-        + subst v. apply ev_const. apply String.eqb_refl.
+        + destruct Hw as [s0 [Es0 [Hs0 | []]]]. subst v s0. apply ev_const. apply String.eqb_refl.
         + destruct Hw as [ft [Hft He']]. rewrite Hft. exact He'.
       - (* absent key: the field's default must be None, so the node is conditional *)
         pose proof (Hacc pf1 Hpf1) as Ha. unfold field_check in Ha. rewrite Ek1, Ev in Ha.
@@ -238,13 +238,14 @@ Section MixS.
       - exists []. intros j Hj. destruct j as [|j']; [lia|]. apply mro_empty, Heb, Hbe. }
     (* the own fields, uniformly in the validation fuel *)
     assert (HFF : Forall2 (fun f pf => forall n', n' >= F + Datatypes.S g + 1 ->
-                                         field_facts_rev C S frs (Wn n') tn f pf) fns pfl).
+                                         field_facts_rev C S frs (Wn n') [tn] tn f pf) fns pfl).
     { apply Forall2_forall. intros n' Hn'. destruct n' as [|n1]; [lia|].
       eapply level_facts_rev with (W := Wn (Datatypes.S n1)) (mro := mro_fields n1 cls)
                                   (ok := sels_okM g true C S frs mx true) (ok2 := fun _ _ _ _ => false)
-                                  (strict := sels_strictM gs' C S frs true) (mx := mx) (harm := harmless cls)
+                                  (strict := sels_strictM gs' C S frs true) (una := fun _ _ => false)
+                                  (mx := mx) (harm := harmless cls) (tvs := [tn])
                                   (fuel' := fuel') (g := g) (cs := cls);
-        try eassumption.
+        try eassumption; try (intro Hnil; discriminate Hnil).
       - intros eb0. apply mx_ok_harmless, G0.
       - apply Wn_opt.
       - apply Wn_list.
@@ -253,17 +254,18 @@ Section MixS.
       - intros m Hm. unfold Wn. cbn [accepts]. rewrite scalar_rejects_null by exact Hm. reflexivity.
       - intros m vs j Hm H. unfold Wn in H. apply andb_true_iff in H as [H _]. cbn [accepts] in H.
         rewrite (enum_leaf_exact S _ m vs j Hm) in H. exact H.
-      - intros t v H. unfold Wn in H. apply andb_true_iff in H as [H _]. simpl in H.
-        destruct v; try discriminate H. unfold mem in H. simpl in H. rewrite orb_false_r in H.
-        apply String.eqb_eq in H. congruence.
+      - intros vs v H. unfold Wn in H. apply andb_true_iff in H as [H _]. simpl in H.
+        destruct v; try discriminate H. eexists. split; [reflexivity | apply mem_In, H].
       - intros c j H. unfold Wn in H. apply andb_true_iff in H as [H _]. simpl in H.
         destruct j; try discriminate H. eauto.
       - intros alts j H. unfold Wn in *. apply acc_cov_union, H.
       - intros c eb0 fs Hlc Hnc Hbc Hh Hm. eapply mro_some_harmless; eauto.
       - eauto.
       - (* nested classes *)
-        intros pb cn2 tn2 sels2 at2 eb2 out2 pub2 kv2 P0 P1 P2 P3 P3' P4 P5.
-        destruct P2 as [P2 | P2]; [| discriminate P2].
+        intros pb cn2 tn2 sels2 at2 eb2 tvs2 out2 pub2 kv2 P0 P1 Pne P2 P3 Pd P3' P4 P5.
+        destruct Pd as [Pd | [_ Pd]]; [subst tvs2 | discriminate Pd].
+        exists tn2. split; [left; reflexivity|].
+        destruct (P2 tn2 (or_introl eq_refl)) as [P2' | P2']; [| discriminate P2']. clear P2. rename P2' into P2.
         unfold Wn in P5. apply andb_true_iff in P5 as [P5 P6].
         change (class_accepts (accepts n1 cls (schema_enums S)) (mro_fields n1 cls cn2) (JObj kv2) = true) in P5.
         change (class_covers (covers n1 cls) (mro_fields n1 cls cn2) (JObj kv2) = true) in P6.
@@ -282,7 +284,7 @@ Section MixS.
         rewrite collect_scopes_single. rewrite (collect_mono _ _ _ _ _ _ _ Hc2 fc) by lia. apply Ha. lia.
       - eapply table_ok_incl; [exact Htab|]. rewrite Hout. apply incl_tl, incl_refl. }
     assert (HA : forall pf, In pf pfs -> exists f, In (node_of_fnode false f) N /\
-               forall n', n' >= F + Datatypes.S g + 1 -> field_facts_rev C S frs (Wn n') tn f pf).
+               forall n', n' >= F + Datatypes.S g + 1 -> field_facts_rev C S frs (Wn n') [tn] tn f pf).
     { intros pf Hpf. destruct (Hdec pf Hpf) as [Hin | [b [pb [Hb [Hmb Hinb]]]]].
       - simpl c_fields in Hin. destruct (Forall2_In_r _ _ _ _ HFF Hin) as [f [Hf Hfacts]].
         exists f. split; [apply HlN, Hown, Hf | exact Hfacts].
